@@ -138,19 +138,10 @@ def tokens_tokens_handlers__verifyCaveats : List String := [
   "return errors.New(\"Required caveats not present\")"
 ]
 
-def tokens_tokens_handlers__verifyExpiry : List String := [
-  "func func(t string, now int) bool",
-  "expiry, err := strconv.Atoi(t)",
-  "if err != nil {",
-  "return false",
-  "}",
-  "return now < expiry"
-]
-
 def tokens_tokens_type_TokenOptions : List String := [
   "type TokenOptions struct { ServerPrivateKey []byte `yaml:\"private_key\"` ServerName string `yaml:\"server_name\"` UserID string `json:\"user_id\"` Duration int }"
 ]
 
-def functions : List String := ["tokens/tokens.go:.GenerateLoginToken", "tokens/tokens.go:.deSerializeMacaroon", "tokens/tokens.go:.generateBaseMacaroon", "tokens/tokens.go:.isValidTokenOptions", "tokens/tokens.go:.macaroonError", "tokens/tokens.go:.serializeMacaroon", "tokens/tokens_handlers.go:.GetUserFromToken", "tokens/tokens_handlers.go:.ValidateToken", "tokens/tokens_handlers.go:.verifyCaveats", "tokens/tokens_handlers.go:.verifyExpiry", "tokens/tokens.go:type TokenOptions"]
+def functions : List String := ["tokens/tokens.go:.GenerateLoginToken", "tokens/tokens.go:.deSerializeMacaroon", "tokens/tokens.go:.generateBaseMacaroon", "tokens/tokens.go:.isValidTokenOptions", "tokens/tokens.go:.macaroonError", "tokens/tokens.go:.serializeMacaroon", "tokens/tokens_handlers.go:.GetUserFromToken", "tokens/tokens_handlers.go:.ValidateToken", "tokens/tokens_handlers.go:.verifyCaveats", "tokens/tokens.go:type TokenOptions"]
 
 end VPins.C20
